@@ -56,12 +56,31 @@ pub fn workload_query(w: &str, size: u64) -> String {
     format!("catch({}, B, true).", workloads::goal(w, size))
 }
 
+/// Goals that go on after the handler inside the same query: state made before the catch/3
+/// (suspended goals, attributed variables inside an open call_residue_vars/2, a backtrackable
+/// global variable) is used after it; `K` collects what the later goals computed and does not
+/// depend on the workload.
+pub const CONTINUATIONS: &[&str] = &["c31_resid", "c31_after"];
+
+pub fn continuation_query(c: &str, w: &str, size: u64) -> String {
+    format!("{}({}, B, K).", c, workloads::goal(w, size).replace(", R)", ", _)"))
+}
+
+fn binding<'a>(b: &'a str, name: &str) -> Option<&'a str> {
+    b.split(';').find_map(|seg| seg.strip_prefix(name).and_then(|r| r.strip_prefix('=')))
+}
+
 /// All goals of the check: (text, is_textual)
 pub fn all_goals() -> Vec<(String, bool)> {
     let mut v = vec![];
     for (w, sizes) in WORKLOADS {
         for s in *sizes {
             v.push((workload_query(w, *s), false));
+        }
+        for c in CONTINUATIONS {
+            for s in &sizes[..2] {
+                v.push((continuation_query(c, w, *s), false));
+            }
         }
     }
     for t in TEXTUAL {
@@ -78,6 +97,12 @@ pub fn enumerated_goals() -> Vec<String> {
     }
     for t in TEXTUAL {
         v.push(t.to_string());
+    }
+    for c in CONTINUATIONS {
+        for w in ["w_attrhead", "w_dif", "w_list"] {
+            let sizes = WORKLOADS.iter().find(|(n, _)| *n == w).map(|(_, s)| *s).unwrap();
+            v.push(continuation_query(c, w, sizes[0]));
+        }
     }
     v
 }
@@ -242,6 +267,7 @@ impl Check for C31 {
 
         let t0 = vh::ticks();
         vh::set_catch_trace(true);
+        let _ = vh::take_last_interrupt_catcher();
         vh::set_tick_budget(t0 + 50 * base_ticks + 200_000);
         let got = m.run_with(&goal, usize::MAX, |k| {
             if k == 0 {
@@ -257,6 +283,10 @@ impl Check for C31 {
         catchers.dedup();
         // the first catch/3 that picked up a ball after the interrupt was raised identifies the site
         let catchers = catchers.first().cloned().unwrap_or_else(|| "-".to_string());
+        // ... but the goal that kept the interrupt ball (the last catch/3 that received it) names
+        // the site exactly
+        let keeper = vh::take_last_interrupt_catcher();
+        let catchers = if keeper.is_empty() { catchers } else { keeper };
         out.bump("sim_ticks", vh::ticks() - t0);
         hash_bytes(&mut h, got.text().as_bytes());
         out.hash = h;
@@ -276,6 +306,16 @@ impl Check for C31 {
             let caught = got.items.iter().any(|a| matches!(a, Ans::Bind(b) if b.contains(&format!("B={}", INTERRUPT_FORMAL))));
             if caught {
                 out.bump("interrupt_caught_by_goal_catch", 1);
+                // the goals after the handler computed what they compute without an interrupt
+                let want = base.items.iter().find_map(|a| if let Ans::Bind(b) = a { binding(b, "K") } else { None });
+                if let Some(want) = want {
+                    let have = got.items.iter().find_map(|a| if let Ans::Bind(b) = a { binding(b, "K") } else { None });
+                    out.bump("goals_after_handler_in_same_query_checked", 1);
+                    if have != Some(want) {
+                        let c = goal.split('(').next().unwrap_or("?");
+                        bad = Some(("post-handler-wrong".into(), format!("post-handler-wrong:{}", c), format!("`{goal}` interrupted at instruction {n} and handled: the goals after the handler gave K = {}, without an interrupt K = {want}", have.unwrap_or("<none>"))));
+                    }
+                }
             } else if last_ball.as_deref().map(|b| b.starts_with(INTERRUPT_FORMAL)).unwrap_or(false) {
                 out.bump("interrupt_escaped_query", 1);
             } else if stray {
